@@ -114,6 +114,10 @@ def correspond(ctx):
         for seed in seeds:
             for mode in modes:
                 run_case(ctx, case, mode, seed, observed, n_queries=3 if ctx.thorough else 2)
+            rs_mode = case.cand_modes[(i + ctx.seed) % len(case.cand_modes)]
+            run_case(ctx, case, rs_mode, seed, observed, n_queries=2, variant="rs-instance")
+            for mode in [m for m in case.cand_modes if m != "none"][: (2 if ctx.thorough else 1)]:
+                run_case(ctx, case, mode, seed, observed, n_queries=2, variant="rs-instance-all-labeled")
             if oracles.has_fit_flag(case):
                 # fit_<model>=False with a model the caller has fitted, with and without sample_weight
                 vmodes = case.cand_modes if (ctx.thorough or lead) else (case.cand_modes[(i + ctx.seed + 1) % len(case.cand_modes)],)
@@ -200,7 +204,7 @@ def search(ctx):
                 continue
             for mode in case.cand_modes:
                 run_case(ctx, case, mode, ctx.seed + 1000 + 17 * rnd, observed, n_queries=4)
-                for variant in ("prefit", "prefit-nosw"):
+                for variant in ("prefit", "prefit-nosw", "rs-instance", "rs-instance-all-labeled"):
                     run_case(ctx, case, mode, ctx.seed + 1000 + 17 * rnd, observed, n_queries=2, variant=variant)
             if time.time() - t0 > (600 if ctx.thorough else 120):
                 return
